@@ -6,4 +6,11 @@ MUTANTS = {
     "c18-le-gt1": (["C18"], "tinyflux/utils.py", "    i = bisect.bisect_right(sorted_list, x)\n\n    if i:\n        return i - 1", "    i = bisect.bisect_right(sorted_list, x)\n\n    if i > 1:\n        return i - 1"),
     "c18-gt-left": (["C18"], "tinyflux/utils.py", "    i = bisect.bisect_right(sorted_list, x)\n\n    if i != len(sorted_list):", "    i = bisect.bisect_left(sorted_list, x)\n\n    if i != len(sorted_list):"),
     "c18-ge-right": (["C18"], "tinyflux/utils.py", 'greater than or equal to x.\n\n    Args:\n        sorted_list: The list to search.\n        x: The element to search.\n\n    Returns:\n        The index of the found element or None.\n    """\n    i = bisect.bisect_left(sorted_list, x)', 'greater than or equal to x.\n\n    Args:\n        sorted_list: The list to search.\n        x: The element to search.\n\n    Returns:\n        The index of the found element or None.\n    """\n    i = bisect.bisect_right(sorted_list, x)'),
+    # ---- C09
+    "c09-or-xor": (["C09"], "tinyflux/queries.py", "return CompoundQuery(self, other, operator.or_, hashval)", "return CompoundQuery(self, other, operator.xor, hashval)", 2),
+    "c09-pathfail-true": (["C09"], "tinyflux/queries.py", "        except Exception:\n            return False\n\n        return self._test(value)", "        except Exception:\n            return True\n\n        return self._test(value)"),
+    "c09-cmp-no-try": (["C09"], "tinyflux/queries.py", "            try:\n                return operator(x, rhs)\n            except Exception:\n                return False", "            return operator(x, rhs)"),
+    "c09-matches-search": (["C09"], "tinyflux/queries.py", "return re.match(regex, value, flags) is not None", "return re.search(regex, value, flags) is not None"),
+    "c09-flags-dropped": (["C09"], "tinyflux/queries.py", "return re.search(regex, value, flags) is not None", "return re.search(regex, value) is not None"),
+    "c09-noop-path": (["C09"], "tinyflux/queries.py", "            path_resolver=lambda x: x,\n            hashval=(),", "            path_resolver=lambda x: x[self._path[0]] if self._path else x,\n            hashval=(),"),
 }
